@@ -631,6 +631,11 @@ class Engine:
             return self.construct(fn, args, kwargs)
         if isinstance(fn, types.FunctionType) and fn.__name__ == '<lambda>' and mod.startswith(self.repo_prefix):
             return self.call_lambda(fn, args, kwargs)
+        if anysym and isinstance(fn, types.BuiltinMethodType) and isinstance(getattr(fn, '__self__', None), list) \
+                and fn.__name__ in ('append', 'insert', 'extend'):
+            if self.guards:
+                raise MergeFail('list mutation under guard')
+            return fn(*args, **kwargs)          # a concrete list may hold symbolic elements
         if anysym:
             if isinstance(fn, type) and issubclass(fn, BaseException):
                 return fn('<symbolic message>')
